@@ -314,7 +314,7 @@ def gen_cases(seed: int, n_files: int, max_depth: int, start: int = 0):
         items = g.file()
         text, placed = render(items, top_offset=r.choice([0, 0, 1, 2]))
         runs = gen_configs(r)
-        via = "cli" if r.random() < 0.008 else "api"
+        via = "cli" if i % 150 == 7 else "api"  # a fixed fraction goes through the three CLI commands
         if via == "cli":
             runs = [{}]
         cases.append({"i": i, "items": placed, "text": text, "runs": runs, "via": via})
@@ -802,6 +802,9 @@ def run(tier: str, seed: int, replay: str | None = None) -> int:
     chk.trusted_base.append("node_type / push_m (Model/RustSafety.v) and idents (Model/RustSafetyTypes.v): the shape of tree-sitter-rust's parse tree "
                             "(node types, which nodes are ancestors of which, identifier tokens, start points of call expressions) is a parser "
                             "oracle, validated by this correspondence; the renderer harness/props/c17.py ties abstract files to Rust text")
+    chk.trusted_base.append("`used afterwards` is the documented textual rule (the identifier appears in a later statement of the enclosing "
+                            "block); identifier tokens inside attribute texts (cfg, test, ...) and fn parameters are not modelled - the generator's "
+                            "variable names are disjoint from them; method-form wrappers (rt.spawn_blocking(|| ..)) are outside the generated domain")
     chk.trusted_base.append("attribute semantics is specified on the finite catalogue Model/RustSafetySpec.v::attr_catalogue; option loading "
                             "(section lookup, enabled, ignore patterns) belongs to C05 and is exercised here only through the key spelling that works")
     chk.build(["theories/Props/C17.v"], ["RustSafetyGen"], known_v=["theories/Props/C17Known.v"])
@@ -891,7 +894,8 @@ def run(tier: str, seed: int, replay: str | None = None) -> int:
                 relevant = [FLAGS[i] for i in range(len(FLAGS)) if (base == 0 and not cand[1 + i]) or not alone[i]]
                 live = [f for f in FLAGS if not fixed or f not in fixed]
                 relevant = [f for f in relevant if f in live]
-                explained = base is not None and cand[base] and ideal_ok
+                # without a vector that explains every run, a run is still explained when the claimed vector matches on it
+                explained = cand[base or 0] and ideal_ok
                 if explained and not relevant:
                     relevant = live
                 if explained and relevant:
@@ -903,6 +907,11 @@ def run(tier: str, seed: int, replay: str | None = None) -> int:
                     chk.violation(info)
         if chk.violations or replay:
             break
+    chk.broken = list(dict.fromkeys(chk.broken))
+    chk.notes = list(dict.fromkeys(chk.notes))
+    chk.corr_broken = chk.corr_broken[:1]
+    # the replay is the first violation: prefer the smallest failing input
+    chk.violations.sort(key=lambda v: len(v.get("case", {}).get("text", "")) if isinstance(v.get("case"), dict) else 0)
     return chk.finish()
 
 
